@@ -277,7 +277,8 @@ def write_replay(pid, job, module, call, msg, observed):
     p = os.path.join(d, "%s-%s.json" % (job["function"], hsh))
     with open(p, "w") as f:
         json.dump(dict(property=pid, module=module, function=job["function"], call=call, message=msg,
-                       observed=observed, rerun="./check --replay %s" % p), f, indent=1)
+                       observed=observed, tier=os.environ.get("VERIF_TIER", "quick"), seed=os.environ.get("VERIF_SEED", "0"),
+                       rerun="./check --replay %s" % p), f, indent=1)
     return p
 
 
